@@ -234,6 +234,9 @@ def run(ctx):
     check_meanstd(_Relabel(ctx, {"C07-MEANSTD": "C03-PRIORS"}))
     from .C15 import check_ivar
     check_ivar(_Relabel(ctx, {"C15-IVAR": "C03-PRIORS"}))
+    from .C08 import check_lock as c08_lock
+    ctx.rule("C03-DATA", "the covariance the draws use is that of the merged data: every source's velocities AND errors are stripped in the ONE common unit (shared with C08-LOCK).")
+    c08_lock(_Relabel(ctx, {"C08-LOCK": "C03-DATA"}))
     from .C05 import check_fresh
     ctx.rule("C03-STATE", "nothing on the sampler path keeps or changes state between calls (no memoisation, no module-level mutation, no caching on caller-owned objects) "
                           "(shared with C05-FRESH).")
